@@ -161,7 +161,7 @@ static std::vector<std::vector<std::pair<bool, size_t>>> boundary_sets() {
 }
 
 #ifndef VF_EIGEN
-using S = QP;
+using S = vf::DefaultScalar;
 template <size_t order>
 static void exact_cases(Harness &H, const std::vector<mpq_class> &x, const std::string &dx, bool embedded_only_default) {
   size_t n = x.size();
